@@ -3,6 +3,7 @@
 package olric
 
 import (
+	"errors"
 	"io"
 	"log"
 	"net"
@@ -23,11 +24,14 @@ func (vpFNV) Sum64(b []byte) uint64 {
 	return h
 }
 
-type vpGateConn struct{ errs, others int }
+type vpGateConn struct {
+	errs, others int
+	msg          string
+}
 
 func (c *vpGateConn) RemoteAddr() string             { return "vp" }
 func (c *vpGateConn) Close() error                   { return nil }
-func (c *vpGateConn) WriteError(msg string)          { c.errs++ }
+func (c *vpGateConn) WriteError(msg string)          { c.errs++; c.msg = msg }
 func (c *vpGateConn) WriteString(str string)         { c.others++ }
 func (c *vpGateConn) WriteBulk(bulk []byte)          { c.others++ }
 func (c *vpGateConn) WriteBulkString(bulk string)    { c.others++ }
@@ -105,6 +109,8 @@ func VerifC05_NewGate() {
 	db.server.VerifServe(conn, redcon.Command{Args: args})
 	if members < quorum {
 		vpAssert(conn.errs == 1 && conn.others == 0, "below-quorum-request-gets-one-error-reply")
+		// what a client makes of that reply (the real client-side conversion): the cluster-quorum error
+		vpAssert(errors.Is(processProtocolError(errors.New(conn.msg)), ErrClusterQuorum), "below-quorum-reply-is-the-cluster-quorum-error")
 		vpAssert(db.dmap.VerifEntryCount("d") == before, "below-quorum-request-changes-nothing")
 	} else {
 		vpAssert(conn.errs+conn.others > 0, "request-is-answered")
